@@ -62,6 +62,9 @@ def main(argv):
     if prop in DAV:
         from . import davcheck
         return davcheck.run(prop, tier, seed, replay=a.replay)
+    if prop == "C13":
+        from . import pathcheck
+        return pathcheck.run(prop, tier, seed, replay=a.replay)
     if prop == "C12":
         from . import cardcheck
         return cardcheck.run(prop, tier, seed, replay=a.replay)
